@@ -106,7 +106,8 @@ for _n, _t, _to in [(1, ("quick", "thorough"), 60), (2, ("quick", "thorough"), 1
 
 
 # --- d. documents from token sequences, real conflicting styles: precedence (P) ----------------------------------
-_TOKENS = ["t", "[red]", "[blue]", "[green]", "[/red]", "[/blue]", "[/]", "\\[red]", "[b]", "[/bold]", "u\nv"]
+_TOKENS = ["t", "[red]", "[blue]", "[green]", "[/red]", "[/blue]", "[/]", "\\[red]", "[b]", "[/bold]", "u\nv",
+           "[link=http://e/?q=1&r=2]"]
 _NT = len(_TOKENS)
 _CON = Console(file=io.StringIO(), color_system="truecolor", width=80, force_terminal=True)
 
@@ -141,7 +142,7 @@ def _doc_ok(ks) -> bool:
         for tg in tags:
             want = want + Style.parse(tg)
         g = got[i] if got[i] is not None else Style()
-        if (g.color, g.bold) != (want.color, want.bold):
+        if (g.color, g.bold, g.link) != (want.color, want.bold, want.link):
             return False
     return True
 
@@ -150,7 +151,7 @@ def _mk_docs(n, first, tiers, timeout):
     @symx("C04-d-documents-%dtokens-first%d" % (n, first), tiers=tiers, timeout=timeout, kind="P",
           functions=F_MK + ["rich/text.py:Text.render"],
           bounds="every document of 1..%d tokens from %r starting with token %r (solver-enumerated, native): error condition, plain "
-                 "text, and per character the effective colour/bold = combination of the open tags, later-opened winning (read from "
+                 "text, and per character the effective colour/bold/link = combination of the open tags, later-opened winning (read from "
                  "rendered segments)" % (n, _TOKENS, _TOKENS[first]))
     def h(e):
         k = int(e.mk("ntokens", 1, n))
